@@ -776,6 +776,15 @@ func (fr *Frame) makeInterface(in *ssa.MakeInterface) *GVal {
 	xv := fr.val(in.X)
 	it := in.Type()
 	isErr := ex.p.w.SortOf(it) == SErr
+	if ifc, ok := it.Underlying().(*types.Interface); ok && ifc.NumMethods() > 0 && !isErr {
+		// conversion to a method-bearing interface (sort.Interface, fmt.Stringer): the wrapped value stays
+		// reachable through Wrapped; as a dynamic value it is opaque
+		g := &GVal{T: App("VGo", SVal, IntLit(goKindStruct), ex.p.FreshConst("goid", SInt)), Typ: it, Wrapped: xv}
+		if xv.Ptr != nil && xv.T == nil {
+			g.Ptr = xv.Ptr
+		}
+		return g
+	}
 	t := fr.toIface(xv, in.X.Type(), isErr, in.Pos())
 	g := &GVal{T: t, Typ: it}
 	if xv.Ptr != nil && xv.T == nil {
